@@ -145,6 +145,9 @@ def run(ctx, chk):
         r = O.reach(c)
         chk.oblige("B09.4ii %s takes the length as a parameter (does not load it)" % c, GET not in r,
                    key="B09.4ii|%s" % c, msg="reader constructors must not load the shared length themselves")
+    # B09.6 relocation publishes the new placement only after the bytes are there (rawdb side of every append)
+    from props.c10 import data_before_placement
+    data_before_placement(ctx, chk, "B09.6")
     # B09.5 overwrite of published bytes only under PAGES:W
     for b in O.sites(cw, TW):
         t = cw.blocks[b]["term"]
